@@ -148,8 +148,17 @@ def call(tag, *args, **kwargs):
     return val
 
 
+_F_CACHE: dict = {}
+
+
 def F(tag):
-    return partial(call, tag)
+    """The task function of node `tag`.  One object per tag for the life of the process, so that
+    equal legacy tasks of different graphs (same tag, same arguments) are equal tuples -- as they
+    are for ordinary module-level functions."""
+    try:
+        return _F_CACHE[tag]
+    except KeyError:
+        return _F_CACHE.setdefault(tag, partial(call, tag))
 
 
 # ---- instrumented chunk functions for collection-level checks (C16) ----------
